@@ -272,7 +272,6 @@ impl Uci {
             }
             UciCommand::UciNewGame => {
                 self.game = Game::new();
-                self.is_stopped.reset();
 
                 let mut persistent_state_handle = self.persistent_state.lock().unwrap();
                 persistent_state_handle.reset();
@@ -332,6 +331,9 @@ impl Uci {
                 let search_restrictions = SearchRestrictions { depth: *depth };
 
                 let persistent_state = self.persistent_state.clone();
+
+                // The latch belongs to the search started here: a later `stop` waits for this search
+                self.is_stopped.reset();
                 let is_stopped = self.is_stopped.clone();
 
                 let join_handle = std::thread::spawn(move || {
